@@ -33,6 +33,14 @@ where
         T: Hash + Eq + Clone + Ord + Display,
         A: Clone,
     {
+        #[cfg(graphrs_verif)]
+        if let Some(token) = self.verif_trace_begin() {
+            let result = self.add_edge(edge.clone());
+            let traced = (&[&edge.u, &edge.v], edge.weight, edge.attributes.is_some());
+            self.verif_trace_end(token, "add_edge", traced.0, traced.1, traced.2, &result);
+            return result;
+        }
+
         // check for self loops
         if !self.specs.self_loops && edge.u == edge.v {
             match self.specs.self_loops_false_strategy {
@@ -328,6 +336,14 @@ where
         T: Hash + Eq + Clone + Ord,
         A: Clone,
     {
+        #[cfg(graphrs_verif)]
+        if let Some(token) = self.verif_trace_begin() {
+            self.add_node(node.clone());
+            let traced = (&[&node.name], f64::NAN, node.attributes.is_some());
+            self.verif_trace_end(token, "add_node", traced.0, traced.1, traced.2, &Ok(()));
+            return;
+        }
+
         match self.nodes_map.contains_key(&node.name) {
             true => {
                 let node_index = self.get_node_index(&node.name).unwrap();
